@@ -28,7 +28,7 @@ import (
 
 // C14 — redirect URLs carry the exact message and a signature over exact query octets.
 
-var c14Relay = []string{"", "foobar", "a b", "a+b", "a&b=c", "100%", "%41", "ünï/日本", "a;b", "~._-*", "line1\nline2", strings.Repeat("relay-state-", 170), "SAMLRequest=x&SigAlg=y", "#frag?x", " lead", "trail ", " ", "\t"}
+var c14Relay = []string{"", "foobar", "a b", "a+b", "a&b=c", "100%", "%41", "ünï/日本", "a;b", "~._-*", "line1\nline2", strings.Repeat("relay-state-", 170), "SAMLRequest=x&SigAlg=y", "#frag?x", " lead", "trail ", " ", "\t", "café", "日本語", "a.b-c_d~e", "Ünï9"}
 var c14Docs = []string{"authn", "logout", "tiny", "non-ascii"}
 var c14URLs = []string{"https://idp.example.com/sso", "https://idp.example.com/sso?x=1", "https://idp.example.com/sso?x=1&y=a%20b&x=2", "https://idp.example.com/a%20path/sso", "https://idp.example.com/sso?empty=&flag"}
 var c14Funcs = []string{"BuildAuthURL", "BuildAuthURLFromDocument", "BuildAuthURLRedirect", "BuildLogoutURLRedirect", "AuthRedirect"}
@@ -292,7 +292,7 @@ func c14Replay(raw json.RawMessage) ([]string, string) {
 }
 
 func c14Run(r *mc.Run) {
-	r.Rule = "full product relay state(18) x document(4) x IdP URL(5: no query, one parameter, repeated and escaped parameters, escaped path, empty-valued and valueless parameters) x function(5) x SignAuthnRequests(2) x algorithm(4: unset, rsa-sha1, rsa-sha512, ecdsa-sha256) x key configuration(4); oracle = hand-split raw query (no net/url), strict percent-decoding, base64 + raw inflate, PKCS#1 v1.5 / ECDSA verification with the reported certificate over SAMLRequest=..[&RelayState=..]&SigAlg=.. assembled from the raw values as they appear. non-trivial = a URL was produced and decoded; distinct = distinct case"
+	r.Rule = "full product relay state(22) x document(4) x IdP URL(5: no query, one parameter, repeated and escaped parameters, escaped path, empty-valued and valueless parameters) x function(5) x SignAuthnRequests(2) x algorithm(4: unset, rsa-sha1, rsa-sha512, ecdsa-sha256) x key configuration(4); oracle = hand-split raw query (no net/url), strict percent-decoding, base64 + raw inflate, PKCS#1 v1.5 / ECDSA verification with the reported certificate over SAMLRequest=..[&RelayState=..]&SigAlg=.. assembled from the raw values as they appear. non-trivial = a URL was produced and decoded; distinct = distinct case"
 	var cases []c14Case
 	mc.Enumerate(-1, r.Expired, func(ch *mc.Chooser) {
 		c := c14Case{}
